@@ -208,6 +208,9 @@ func (sc *Scenario) message(s MsgSpec, rs *runState) *sarama.ProducerMessage {
 
 const closeBound = 20 * time.Second
 
+// hangsSeen counts runs of this process whose Close did not return (runs are sequential).
+var hangsSeen int
+
 // Run executes the scenario against the source tree the harness was built with.
 func Run(sc *Scenario) *Result {
 	t0 := time.Now()
@@ -376,7 +379,12 @@ func Run(sc *Scenario) *Result {
 			close(done)
 		}()
 	}
-	deadline := time.Now().Add(closeBound)
+	bound := closeBound
+	if hangsSeen >= 2 {
+		// a tree that hangs has been shown to hang at the full bound twice already: keep the check's run time bounded
+		bound = 2 * time.Second
+	}
+	deadline := time.Now().Add(bound)
 wait:
 	for {
 		select {
@@ -396,6 +404,8 @@ wait:
 	}
 	if res.CloseOK {
 		_ = client.Close()
+	} else {
+		hangsSeen++
 	}
 	omu.Lock()
 	res.Outcomes = append(append([]Outcome(nil), succ...), errs...)
